@@ -7,6 +7,7 @@
 -/
 import SqlizeModel.Abs.Columns
 import SqlizeModel.Proofs.WalkRefine
+import SqlizeModel.Proofs.MergeRefine
 import SqlizeModel.Impl.Api
 import SqlizeModel.Spec.Scope
 
@@ -36,6 +37,16 @@ theorem printed_columns (g : Globals) (hio : g.ignoreOrder = false) (hd : g.dial
     (hnd : (cols.map (·.name)).Nodup) :
     Abs.execAll (newNames cols) ((Table.walkCols g tb false [] cols).1.filterMap colStmt) = some (oldNames cols) :=
   printed_down_correct g hio hd tb cols hact hne hnd
+
+/-- column order of C02 through `Table.Diff` and the down walk of the implementation model (see C01.diffed_columns) -/
+theorem diffed_columns (g : Globals) (hio : g.ignoreOrder = false) (hd : g.dialect ≠ .sqlite) (tb : String)
+    (d : Dialect) (t old t1 : Table) (cols1 : List Column) (h : t.Inv) (hold : old.Inv)
+    (hp : t.pendingPos = none) (hadd : ∀ c ∈ t.cols, c.action = .add) (holdAdd : ∀ c ∈ old.cols, c.action = .add)
+    (hne : ∀ n ∈ t.colNames ++ old.colNames, n ≠ "") (hc : Abs.OrderCompatible t.colNames old.colNames)
+    (h1 : Table.diffCols1 d old t.cols = .ok cols1)
+    (h2 : Table.diffCols2 (d == .mysql) { t with cols := cols1 } [] old.cols = .ok t1) :
+    Abs.execAll t.colNames ((Table.walkCols g tb false [] t1.cols).1.filterMap colStmt) = some old.colNames :=
+  (Table.diffed_columns g hio hd tb d t old t1 cols1 h hold hp hadd holdAdd hne hc h1 h2).2
 
 /-- running up and then down on the old column list is the identity -/
 theorem up_down_identity (N O : List Abs.Name) (hN : N.Nodup) (hO : O.Nodup) (hc : Abs.OrderCompatible N O) :
